@@ -422,11 +422,22 @@ def run_py(scratch: Scratch, args: list[str], *, input_text: str | None = None, 
     return subprocess.run([PY] + args, input=input_text, capture_output=True, text=True, timeout=timeout, env=e, cwd=cwd)
 
 
+MAX_JOBS_PER_WORKER = int(os.environ.get("VERIF_MAX_JOBS_PER_WORKER", "200"))
+
+
 def parallel_py(scratch: Scratch, script: str, jobs: list[Any], *, nproc: int | None = None, timeout: int = 5400, env=None) -> list[Any]:
     """Run `script` (a module path under harness/, executed as `python -m`) in nproc children; each child gets a
     JSON list of jobs on stdin and must print one JSON line per job result.  Jobs are dealt round-robin
     deterministically.  Returns results in job order (each result must carry the job's "id")."""
     nproc = nproc or min(NCPU, max(1, len(jobs)))
+    # the code under test keeps state for the lifetime of a process (a worker that runs the generator or the loader thousands of times
+    # grows by several MB per document): no child handles more than MAX_JOBS_PER_WORKER jobs, larger families run in rounds
+    if len(jobs) > nproc * MAX_JOBS_PER_WORKER:
+        out: list[Any] = []
+        step = nproc * MAX_JOBS_PER_WORKER
+        for k in range(0, len(jobs), step):
+            out += parallel_py(scratch, script, jobs[k : k + step], nproc=nproc, timeout=timeout, env=env)
+        return out
     buckets: list[list[Any]] = [[] for _ in range(nproc)]
     for i, j in enumerate(jobs):
         buckets[i % nproc].append(j)
